@@ -33,7 +33,7 @@ type Feat struct {
 	Ids    int `json:"ids"`    // argument ids of item: 1 []int64, 2 []*int64
 	KindA  int `json:"kinda"`  // argument kind of item: 1 optional (*Kind)
 	Name   int `json:"name"`   // Item.name: 1 string (non-null), 2 *string
-	Kind   int `json:"kind"`   // enum Kind and Item.kind: 1 values {A,B}, 2 values {A,B,C}
+	Kind   int `json:"kind"`   // enum Kind and Item.kind: 1 {A,B}, 2 {A,B,C}, 3 {A,C}, 4 {B,C,D}
 	Tags   int `json:"tags"`   // Item.tags: 1 []string, 2 []*string
 	Any    int `json:"any"`    // Query.any: 1 union {Item, Other}, 2 union {Item}
 	Count  int `json:"count"`  // Query.count: 1 int64, 2 *int64
@@ -44,7 +44,7 @@ type Feat struct {
 // Random draws a feature vector; consistent() repairs dependencies (an argument needs its field, the
 // kind argument and Item.kind need the enum, a version needs at least one root field).
 func Random(r *rand.Rand) Feat {
-	f := Feat{Item: r.Intn(3), Id: r.Intn(3), Filter: r.Intn(6), Ids: r.Intn(3), KindA: r.Intn(2), Name: r.Intn(3), Kind: r.Intn(3), Tags: r.Intn(3),
+	f := Feat{Item: r.Intn(3), Id: r.Intn(3), Filter: r.Intn(6), Ids: r.Intn(3), KindA: r.Intn(2), Name: r.Intn(3), Kind: r.Intn(5), Tags: r.Intn(3),
 		Any: r.Intn(3), Count: r.Intn(3), Items: r.Intn(3)}
 	return f.Consistent()
 }
@@ -78,7 +78,7 @@ func (f Feat) Mutate(r *rand.Rand) Feat {
 	case 4:
 		f.Name = r.Intn(3)
 	case 5:
-		f.Kind = r.Intn(3)
+		f.Kind = r.Intn(5)
 	case 6:
 		f.Tags = r.Intn(3)
 	case 7:
@@ -147,8 +147,13 @@ func Build(f Feat) (schema *graphql.Schema, err error) {
 	s.Mutation()
 	if f.Kind > 0 {
 		vals := map[string]base.Kind{"A": 0, "B": 1}
-		if f.Kind == 2 {
+		switch f.Kind {
+		case 2:
 			vals["C"] = 2
+		case 3:
+			vals = map[string]base.Kind{"A": 0, "C": 2}
+		case 4:
+			vals = map[string]base.Kind{"B": 1, "C": 2, "D": 3}
 		}
 		s.Enum(base.Kind(0), vals)
 	}
